@@ -228,6 +228,7 @@ VSsetinterlace(int32 vkey, /* IN: vdata key */
     /* currently only 2 kinds of interlaced schemes allowed. */
     if (interlace == FULL_INTERLACE || interlace == NO_INTERLACE) {
         vs->interlace = (int16)interlace;
+        vs->marked    = TRUE;    /* the header changed: make sure it gets written */
         ret_value     = SUCCEED; /* ok */
     }
     else
